@@ -140,7 +140,6 @@ void sim::engine_fault(RunCtx& cx) {
             cx.log.ev("ARM-FAULT " + fault_dest + " k=" + std::to_string(wf.k));
         }
         cx.log.ev(std::string("OP ") + std::to_string(i) + " " + ppl::OPN[op.kind]);
-        uint64_t bw_before = p.M.blocks_written;
         try {
             p.exec(i, op);
         } catch (std::exception& e) {
@@ -148,7 +147,10 @@ void sim::engine_fault(RunCtx& cx) {
             first_exc_what = e.what();
             cx.log.ev(std::string("EXCEPTION ") + e.what());
             if (armed && !F.wfaults.empty() && F.wfaults[0].fired) exception_since_fault = true;
-            if (op.kind == ppl::O_ROTATE && op.export_ && p.ex->get_blocks_written_count() == bw_before + 1) p.M.write_block();
+            // rotate_output(export=true) that fails after its block-export step completed: the block has left the buffer for the
+            // failed (and reported) output. Recognised by the exporter holding nothing any more; the exporter may or may not
+            // have reset its blocks-written counter at that point, so that counter is not consulted.
+            if (op.kind == ppl::O_ROTATE && op.export_ && p.ex->get_block_item_count() == 0) p.M.write_block();
             break;
         }
         if (op.kind == ppl::O_ROTATE) {
